@@ -242,7 +242,12 @@ def word_case(part, P, w, lname, rel, learn):
         return
     if not ok:
         got = struct.unpack('>L', a[0])[0] if a and len(a[0]) == 4 else None
-        part.violation('class=%s step=asm field=%s' % (cname, diff_fields(w, got) if got is not None else 'shape'),
+        fld = diff_fields(w, got) if got is not None else 'shape'
+        if got is not None and cname in ('ppc_bc', 'ppc_bctr') and ((w ^ got) >> 16) & 31:
+            # BI = CR field (3 bits) . condition bit (2 bits): which part the text loses is a different defect
+            d = ((w ^ got) >> 16) & 31
+            fld = '+'.join(('ra[%s]' % ','.join(n for n, m_ in (('crf', 0x1c), ('cond', 3)) if d & m_)) if f == 'ra' else f for f in fld.split('+'))
+        part.violation('class=%s step=asm field=%s' % (cname, fld),
                        'asm(%r) = %s, decoded word %#010x' % (txt, [x.hex() for x in a] if isinstance(a, list) else a, w), wit, size=bin(w).count('1'))
         return
     if lname is not None:
